@@ -132,8 +132,13 @@ def make_inputs(case):
     cont = case.get("container", "list")
     yv = [int(v) if F(v).denominator == 1 and case["kind"] != "bgl" else float(F(v)) for v in case["y"]]
     gv = list(case["g"])
+    _GINV.clear()
     if case.get("gtype") == "int":
         gv = [int(v) for v in gv]
+        if case.get("gmap"):
+            gm = list(case["gmap"])
+            gv = [gm[v] for v in gv]
+            _GINV.update({str(gm[i]): str(i) for i in range(len(gm))})
     cv = None if case.get("c") is None else list(case["c"])
     if cv is not None and case.get("ctype") == "int":
         cv = [int(v) for v in cv]
@@ -305,8 +310,16 @@ def make_moment(case):
     return previous_life(cls(**kw), case)
 
 
+_GINV = {}
+
+
+def gl(x):
+    """canonical name of a group label that came back from fairlearn (inverse of the case's `gmap`, if any)"""
+    return _GINV.get(str(x), str(x))
+
+
 def index_keys(index):
-    return [[str(k[0]), canon_event(k[1]), str(k[2])] for k in index]
+    return [[str(k[0]), canon_event(k[1]), gl(k[2])] for k in index]
 
 
 def gen_dataset(rng, tier, moment=None):
@@ -333,7 +346,13 @@ def gen_dataset(rng, tier, moment=None):
         h = [str(rng.randint(0, 1)) for _ in range(n)]
     else:
         h = [str(F(rng.randint(0, 8), 8)) for _ in range(n)]
-    return {"y": [str(v) for v in y], "g": g, "c": c, "h": h, "gtype": gtype, "ctype": ctype,
+    gmap = None
+    if gtype == "int" and rng.random() < 0.5:
+        # integer group labels whose STRING order differs from their numeric order (e.g. 2, 9, 10): pandas keeps the
+        # numeric order, a stringifying shortcut does not.  The case keeps the canonical names "0".."3"; `gmap` is the
+        # increasing table canonical -> real label, applied in make_inputs and inverted on every label that comes back
+        gmap = rng.choice([[-3, 2, 9, 10], [2, 9, 10, 11], [5, 12, 100, 1000], [-2, -1, 3, 20]])[:ng]
+    return {"gmap": gmap, "y": [str(v) for v in y], "g": g, "c": c, "h": h, "gtype": gtype, "ctype": ctype,
             "container": rng.choice(["list", "ndarray", "ndarray", "ndarray_float", "series", "dataframe"]),
             "pstyle": rng.choice(["flat", "flat", "col", "series"])}
 
@@ -522,7 +541,7 @@ class CHECK(Check):
             if case.get("container") != "list" or case.get("pstyle") != "flat":
                 yield dict(case, container="list", pstyle="flat")
             if case.get("gtype") == "int":
-                yield dict(case, gtype="str", g=["abcd"[int(v)] for v in case["g"]])
+                yield dict(case, gtype="str", gmap=None, g=["abcd"[int(v)] for v in case["g"]])
             if case["rb"] is not None and case["rb"] != "1":
                 yield dict(case, rb="1")
             if any(F(v).denominator != 1 for v in case["h"]):
@@ -603,11 +622,11 @@ class CHECK(Check):
             m.load_data(X, y, sensitive_features=sf)
             pred = make_predictor(case["h"], "flat")
             gam = m.gamma(pred)
-            out = {"index": [str(k) for k in m.index], "gamma_index": [str(k) for k in gam.index],
+            out = {"index": [gl(k) for k in m.index], "gamma_index": [gl(k) for k in gam.index],
                    "gamma": [float(v) for v in gam.values]}
             try:
                 b = m.bound()
-                out["bound"] = ["ok", [str(k) for k in b.index], [float(v) for v in b.values]]
+                out["bound"] = ["ok", [gl(k) for k in b.index], [float(v) for v in b.values]]
             except ValueError:
                 out["bound"] = ["exc", "ValueError"]
             obj = m.default_objective()
@@ -973,7 +992,7 @@ class CHECK(Check):
             tags += [f"moment={case['moment']}", f"n={'4-6' if n <= 6 else '7-12' if n <= 12 else '13-30'}",
                      f"groups={len(set(case['g']))}", f"strata={0 if case['c'] is None else len(set(case['c']))}",
                      f"bound={bk}", "pred=hard" if hard else "pred=soft", f"container={case['container']}",
-                     f"pstyle={case.get('pstyle')}", f"gtype={case.get('gtype')}"]
+                     f"pstyle={case.get('pstyle')}", f"gtype={case.get('gtype')}" + ("(str-order!=numeric-order)" if case.get("gmap") else "")]
             if mg:
                 tags.append("some-stratum-lacks-a-group")
             if ml:
